@@ -342,11 +342,119 @@ end entropyThms
 
 /-! ## relative entropy: the gradient is the derivative (real analysis) -/
 section deriv
+open Filter Topology
 
-/-- the defining formula `Σ_i q_i log(q_i / (p_i + t d_i))` along the line `x + t h` (`d = A h`) -/
-noncomputable def reF : List ℝ → List ℝ → List ℝ → ℝ → ℝ
-  | q :: qs, p :: ps, d :: ds, t => q * Real.log (q / (p + t * d)) + reF qs ps ds t
-  | _, _, _, _ => 0
+/-- one outcome along a line: data `q`, probability `p`, gradient component `g = ∂_α p`, direction `d = (A h)_i` -/
+structure Pt where
+  q : ℝ
+  p : ℝ
+  g : ℝ
+  d : ℝ
+
+def qsOf (l : List Pt) : List ℝ := l.map (·.q)
+def psAt (l : List Pt) (t : ℝ) : List ℝ := l.map fun x => x.p + t * x.d
+def gsOf (l : List Pt) : List ℝ := l.map (·.g)
+def dsOf (l : List Pt) : List ℝ := l.map (·.d)
+/-- numpy's `log` values as the kernel receives them: `Real.log` of the clipped ratio -/
+noncomputable def logsAt (epsq epsp : ℝ) (l : List Pt) (t : ℝ) : List ℝ :=
+  l.map fun x => Real.log (logArg x.q (x.p + t * x.d) epsq epsp)
+
+/-- away from the clipping thresholds at parameter `t` -/
+def AwayAt (epsq epsp : ℝ) (l : List Pt) (t : ℝ) : Prop :=
+  ∀ x ∈ l, 0 < x.q ∧ epsq ≤ x.q ∧ 0 < x.p + t * x.d ∧ epsp < x.p + t * x.d ∧ epsp < x.q / (x.p + t * x.d)
+
+theorem roundVarz_of_lt {z eps : ℝ} (h : eps < z) : roundVarz z eps = z := by
+  unfold roundVarz; rw [if_pos h]
+theorem roundVarz_of_le {z eps : ℝ} (h : eps ≤ z) : roundVarz z eps = z := by
+  unfold roundVarz
+  rcases lt_or_eq_of_le h with h1 | h1
+  · rw [if_pos h1]
+  · rw [if_neg (by rw [h1]; exact lt_irrefl _), h1]
+
+theorem relEnt_value_tie (epsq epsp : ℝ) (l : List Pt) (t : ℝ) (h : AwayAt epsq epsp l t) :
+    relEnt epsq epsp (qsOf l) (psAt l t) (logsAt epsq epsp l t)
+      = (l.map fun x => x.q * Real.log (x.q / (x.p + t * x.d))).sum := by
+  induction l with
+  | nil => simp [qsOf, psAt, logsAt, relEnt]
+  | cons x r ih =>
+    have hx := h x (List.mem_cons_self ..)
+    have ih' := ih fun y hy => h y (List.mem_cons_of_mem _ hy)
+    simp only [qsOf, psAt, logsAt, List.map_cons, relEnt, List.sum_cons] at ih' ⊢
+    rw [ih', if_pos hx.2.1, roundVarz_of_le hx.2.1]
+    unfold logArg
+    rw [roundVarz_of_le hx.2.1, roundVarz_of_lt hx.2.2.2.1, roundVarz_of_lt hx.2.2.2.2]
+
+theorem relEntGrad_tie (epsq epsp : ℝ) (l : List Pt) (t : ℝ) (h : AwayAt epsq epsp l t) :
+    relEntGrad epsq epsp (qsOf l) (psAt l t) (gsOf l)
+      = (l.map fun x => -x.q * x.g / (x.p + t * x.d)).sum := by
+  induction l with
+  | nil => simp [qsOf, psAt, gsOf, relEntGrad]
+  | cons x r ih =>
+    have hx := h x (List.mem_cons_self ..)
+    have ih' := ih fun y hy => h y (List.mem_cons_of_mem _ hy)
+    simp only [qsOf, psAt, gsOf, List.map_cons, relEntGrad, List.sum_cons] at ih' ⊢
+    rw [ih', if_pos hx.2.1, roundVarz_of_lt hx.2.2.2.1]
+
+theorem relEntHess_tie (epsq epsp : ℝ) (l : List Pt) (h : AwayAt epsq epsp l 0) :
+    relEntHess epsq epsp (qsOf l) (psAt l 0) (gsOf l) (dsOf l)
+      = (l.map fun x => x.q * x.g * x.d / x.p ^ 2).sum := by
+  induction l with
+  | nil => simp [qsOf, psAt, gsOf, dsOf, relEntHess]
+  | cons x r ih =>
+    have hx := h x (List.mem_cons_self ..)
+    have ih' := ih fun y hy => h y (List.mem_cons_of_mem _ hy)
+    simp only [qsOf, psAt, gsOf, dsOf, List.map_cons, relEntHess, List.sum_cons] at ih' ⊢
+    rw [ih', if_pos hx.2.1, roundVarz_of_lt hx.2.2.2.1]
+    have hp : x.p ≠ 0 := by have := hx.2.2.1; simp at this; exact this.ne'
+    simp only [zero_mul, add_zero]
+    field_simp
+    ring
+
+/-- the thresholds stay inactive in a neighbourhood of `t = 0` -/
+theorem awayAt_eventually (epsq epsp : ℝ) (l : List Pt) (h : AwayAt epsq epsp l 0) :
+    ∀ᶠ t in 𝓝 (0 : ℝ), AwayAt epsq epsp l t := by
+  induction l with
+  | nil => exact Eventually.of_forall fun t x hx => by simp at hx
+  | cons x r ih =>
+    have hx := h x (List.mem_cons_self ..)
+    have ihr := ih fun y hy => h y (List.mem_cons_of_mem _ hy)
+    simp only [zero_mul, add_zero] at hx
+    have hc : ContinuousAt (fun t : ℝ => x.p + t * x.d) 0 := by fun_prop
+    have hc0 : (fun t : ℝ => x.p + t * x.d) 0 = x.p := by simp
+    have e1 : ∀ᶠ t in 𝓝 (0 : ℝ), 0 < x.p + t * x.d :=
+      hc.eventually (lt_mem_nhds (by rw [hc0]; exact hx.2.2.1))
+    have e2 : ∀ᶠ t in 𝓝 (0 : ℝ), epsp < x.p + t * x.d :=
+      hc.eventually (lt_mem_nhds (by rw [hc0]; exact hx.2.2.2.1))
+    have hcd : ContinuousAt (fun t : ℝ => x.q / (x.p + t * x.d)) 0 :=
+      continuousAt_const.div hc (by simp only [zero_mul, add_zero]; exact hx.2.2.1.ne')
+    have e3 : ∀ᶠ t in 𝓝 (0 : ℝ), epsp < x.q / (x.p + t * x.d) :=
+      hcd.eventually (lt_mem_nhds (by simp only [zero_mul, add_zero]; exact hx.2.2.2.2))
+    filter_upwards [e1, e2, e3, ihr] with t h1 h2 h3 hr
+    intro y hy
+    rcases List.mem_cons.mp hy with rfl | hy
+    · exact ⟨hx.1, hx.2.1, h1, h2, h3⟩
+    · exact hr y hy
+
+theorem list_sum_hasDerivAt {α : Type} (l : List α) (f : α → ℝ → ℝ) (f' : α → ℝ)
+    (h : ∀ x ∈ l, HasDerivAt (f x) (f' x) 0) :
+    HasDerivAt (fun t => (l.map fun x => f x t).sum) (l.map f').sum 0 := by
+  induction l with
+  | nil => simpa using hasDerivAt_const (0 : ℝ) (0 : ℝ)
+  | cons x r ih =>
+    simp only [List.map_cons, List.sum_cons]
+    exact (h x (List.mem_cons_self ..)).add (ih fun y hy => h y (List.mem_cons_of_mem _ hy))
+
+theorem gterm_hasDerivAt (q p g d : ℝ) (hp : 0 < p) :
+    HasDerivAt (fun t : ℝ => -q * g / (p + t * d)) (q * g * d / p ^ 2) 0 := by
+  have h1 : HasDerivAt (fun t : ℝ => p + t * d) d 0 := by
+    simpa using ((hasDerivAt_id (0 : ℝ)).mul_const d).const_add p
+  have hp0 : p + 0 * d ≠ 0 := by simpa using hp.ne'
+  have h2 := (hasDerivAt_const (0 : ℝ) (-q * g)).div h1 hp0
+  have h2' : HasDerivAt (fun t : ℝ => -q * g / (p + t * d))
+      ((0 * (p + 0 * d) - -q * g * d) / (p + 0 * d) ^ 2) 0 := h2
+  refine h2'.congr_deriv ?_
+  simp only [zero_mul, add_zero, zero_sub]
+  ring
 
 /-- one outcome's term: `d/dt q·log(q/(p+td)) = −q d / p` at `t = 0` (Mathlib `HasDerivAt`, `Real.log`) -/
 theorem term_hasDerivAt (q p d : ℝ) (hq : 0 < q) (hp : 0 < p) :
@@ -366,34 +474,63 @@ theorem term_hasDerivAt (q p d : ℝ) (hq : 0 < q) (hp : 0 < p) :
   simp only [zero_mul, add_zero, zero_sub]
   field_simp
 
-/-- C12 (relative entropy, gradient is the derivative — partial): along every line `x + t h` (so `p(t) = p + t·d`,
-`d = A h`) the defining formula `Σ q_i log(q_i/p_i(t))` has, at `t = 0`, the derivative that the model of
-`gradient_relative_entropy_2nd` returns for the direction `d`, whenever the data are above `eps_q` and the
-probabilities above `eps_p` (away from the clipping thresholds, as the property stipulates).
-Partial: stated for the unclipped defining formula `reF`; that `relative_entropy` itself equals `reF` near the
-point (thresholds inactive, numpy `log` = `Real.log`) is checked by correspondence/oracle, not proved. -/
-theorem wre_gradient_hasDerivAt_partial (epsq epsp : ℝ) (qs ps ds : List ℝ)
-    (hq : ∀ q ∈ qs, 0 < q ∧ epsq ≤ q) (hp : ∀ p ∈ ps, 0 < p ∧ epsp < p) :
-    HasDerivAt (reF qs ps ds) (relEntGrad epsq epsp qs ps ds) 0 := by
-  induction qs generalizing ps ds with
-  | nil => simpa [reF, relEntGrad] using hasDerivAt_const (0 : ℝ) (0 : ℝ)
-  | cons q qs ih =>
-    cases ps with
-    | nil => simpa [reF, relEntGrad] using hasDerivAt_const (0 : ℝ) (0 : ℝ)
-    | cons p ps =>
-      cases ds with
-      | nil => simpa [reF, relEntGrad] using hasDerivAt_const (0 : ℝ) (0 : ℝ)
-      | cons d ds =>
-        have hq0 := hq q (List.mem_cons_self ..)
-        have hp0 := hp p (List.mem_cons_self ..)
-        have ih' := ih ps ds (fun x hx => hq x (List.mem_cons_of_mem _ hx))
-          (fun x hx => hp x (List.mem_cons_of_mem _ hx))
-        have ht := term_hasDerivAt q p d hq0.1 hp0.1
-        have := ht.add ih'
-        simp only [relEntGrad, if_pos hq0.2]
-        have hr : roundVarz p epsp = p := by unfold roundVarz; rw [if_pos hp0.2]
-        rw [hr]
-        exact this
+/-- the model's relative-entropy kernel with `np.log = Real.log`, along the line `p(t) = p + t d` -/
+noncomputable def valueAt (epsq epsp : ℝ) (l : List Pt) (t : ℝ) : ℝ :=
+  relEnt epsq epsp (qsOf l) (psAt l t) (logsAt epsq epsp l t)
+
+/-- C12 (relative entropy, value = defining formula): away from the clipping thresholds (`q ≥ eps_q`, `p > eps_p`,
+`q/p > eps_p`) the model's kernel of `relative_entropy`, fed with `Real.log` of the clipped ratios as numpy's
+`log` values, is `Σ_i q_i log(q_i / p_i)`. -/
+theorem wre_value_formula (epsq epsp : ℝ) (l : List Pt) (h : AwayAt epsq epsp l 0) :
+    valueAt epsq epsp l 0 = (l.map fun x => x.q * Real.log (x.q / x.p)).sum := by
+  unfold valueAt
+  rw [relEnt_value_tie epsq epsp l 0 h]
+  simp
+
+/-- C12 (relative entropy, gradient is the derivative of the value): along every line `x + t h`
+(`p(t) = p + t·d`, `d = A h`) the model's value kernel — clipping included — has at `t = 0` the derivative
+that the model of `gradient_relative_entropy_2nd` returns for the direction `d`, provided the point is away
+from the clipping thresholds (they then stay inactive in a neighbourhood). -/
+theorem wre_gradient_hasDerivAt (epsq epsp : ℝ) (l : List Pt) (h : AwayAt epsq epsp l 0) :
+    HasDerivAt (valueAt epsq epsp l) (relEntGrad epsq epsp (qsOf l) (psAt l 0) (dsOf l)) 0 := by
+  have hF : HasDerivAt (fun t => (l.map fun x => x.q * Real.log (x.q / (x.p + t * x.d))).sum)
+      (l.map fun x => -x.q * x.d / x.p).sum 0 := by
+    apply list_sum_hasDerivAt l (fun x t => x.q * Real.log (x.q / (x.p + t * x.d)))
+    intro x hx
+    have hh := h x hx
+    simp only [zero_mul, add_zero] at hh
+    exact term_hasDerivAt x.q x.p x.d hh.1 hh.2.2.1
+  have hEq : valueAt epsq epsp l =ᶠ[𝓝 0]
+      fun t => (l.map fun x => x.q * Real.log (x.q / (x.p + t * x.d))).sum := by
+    filter_upwards [awayAt_eventually epsq epsp l h] with t ht
+    exact relEnt_value_tie epsq epsp l t ht
+  have hD := hF.congr_of_eventuallyEq hEq
+  refine hD.congr_deriv ?_
+  have := relEntGrad_tie epsq epsp (l.map fun x => { x with g := x.d }) 0
+    (by intro y hy; simp only [List.mem_map] at hy; obtain ⟨x, hx, rfl⟩ := hy; exact h x hx)
+  simp only [qsOf, psAt, gsOf, dsOf, List.map_map, Function.comp_def, zero_mul, add_zero] at this ⊢
+  rw [this]
+
+/-- C12 (relative entropy, Hessian is the derivative of the gradient): along every line the component
+`g = ∂_α p` of the model's gradient kernel has at `t = 0` the derivative that the model of
+`hessian_relative_entropy_2nd` returns for `(g, d)` (affine `p`, so the `hess_p` term vanishes), away from the
+clipping thresholds. -/
+theorem wre_hessian_hasDerivAt (epsq epsp : ℝ) (l : List Pt) (h : AwayAt epsq epsp l 0) :
+    HasDerivAt (fun t => relEntGrad epsq epsp (qsOf l) (psAt l t) (gsOf l))
+      (relEntHess epsq epsp (qsOf l) (psAt l 0) (gsOf l) (dsOf l)) 0 := by
+  have hF : HasDerivAt (fun t => (l.map fun x => -x.q * x.g / (x.p + t * x.d)).sum)
+      (l.map fun x => x.q * x.g * x.d / x.p ^ 2).sum 0 := by
+    apply list_sum_hasDerivAt l (fun x t => -x.q * x.g / (x.p + t * x.d))
+    intro x hx
+    have hh := h x hx
+    simp only [zero_mul, add_zero] at hh
+    exact gterm_hasDerivAt x.q x.p x.g x.d hh.2.2.1
+  have hEq : (fun t => relEntGrad epsq epsp (qsOf l) (psAt l t) (gsOf l)) =ᶠ[𝓝 0]
+      fun t => (l.map fun x => -x.q * x.g / (x.p + t * x.d)).sum := by
+    filter_upwards [awayAt_eventually epsq epsp l h] with t ht
+    exact relEntGrad_tie epsq epsp l t ht
+  have hD := hF.congr_of_eventuallyEq hEq
+  exact hD.congr_deriv (relEntHess_tie epsq epsp l h).symm
 
 end deriv
 
